@@ -271,8 +271,8 @@ def logAndApply (H : Bytes → Bytes) (m : Mem) (d : Disk) (op : Op Bytes) (raw 
     let dels := (unref.filter (fun h => d1.has (.cas h))).map (fun h => Ev.unlink (.cas h))
     let m1 := { m with idx := idx', next := ver + 1, active := some target }
     let d2 := d1.applyAll dels
-    let (ck, m2) := if preSeg ≠ target then checkpointScript .rollover m1 d2 else ([], m1)
-    .ok (roll ++ append ++ dels ++ ck, m2)
+    let ck := if preSeg ≠ target then checkpointScript .rollover m1 d2 else ([], m1)
+    .ok (roll ++ append ++ dels ++ ck.1, ck.2)
 
 inductive PutRes where
   | ok
@@ -352,35 +352,36 @@ def preCreateEvents (d : Disk) : List Ev :=
       [[asciiBytes "cas", hexb i], [asciiBytes "cas", hexb i, hexb j]]))
   (all.eraseDups.filter (fun p => !d.dirs.contains p)).map Ev.mkdir
 
-/-- `Cas::open`. `locked` = another live handle holds the flock. -/
-def openScript (H : Bytes → Bytes) (cfg : Config) (d : Disk) (locked : Bool) :
+/-- what `open` does before it holds the lock: top-level directories, LOCK file -/
+def openPre (d : Disk) : List Ev :=
+  (if d.dirs.contains [asciiBytes "staging"] then [] else [Ev.mkdir [asciiBytes "staging"]]) ++
+  (if d.dirs.contains [asciiBytes "cas"] then [] else [Ev.mkdir [asciiBytes "cas"]]) ++
+  [Ev.creat .lock true]
+
+/-- the settings gate: events (first-time creation) and the stored pre-created flag -/
+def settingsGate (cfg : Config) (d : Disk) : Except OpenErr (List Ev × Bool) :=
+  match d.get .settings with
+  | some f =>
+    match parseSettings f.data with
+    | none => .error .settingsParse
+    | some (ver, pre, N) =>
+      if ver ≠ 4 then .error .unsupportedVersion
+      else if N ≠ cfg.N then .error .validation
+      else .ok ([], pre)
+  | none =>
+    .ok ((if cfg.pre then preCreateEvents d else []) ++
+         [Ev.creat .settingsTmp true, .write .settingsTmp (renderSettings 4 cfg.pre cfg.N),
+          .sync .settingsTmp, .rename .settingsTmp .settings], cfg.pre)
+
+/-- everything `open` does once it holds the lock; `d0` = the disk at that moment -/
+def openBody (H : Bytes → Bytes) (cfg : Config) (d0 : Disk) :
     List Ev × Except OpenErr (Mem × ScanOut) :=
-  let e0 := (if d.dirs.contains [asciiBytes "staging"] then [] else [Ev.mkdir [asciiBytes "staging"]]) ++
-            (if d.dirs.contains [asciiBytes "cas"] then [] else [Ev.mkdir [asciiBytes "cas"]]) ++
-            [Ev.creat .lock true]
-  if locked then (e0, .error .alreadyOpened) else
-  let e0 := e0 ++ [Ev.flock]
-  -- settings
-  let sres : Except OpenErr (List Ev × Bool) :=
-    match d.get .settings with
-    | some f =>
-      match parseSettings f.data with
-      | none => .error .settingsParse
-      | some (ver, pre, N) =>
-        if ver ≠ 4 then .error .unsupportedVersion
-        else if N ≠ cfg.N then .error .validation
-        else .ok ([], pre)
-    | none =>
-      let bytes := renderSettings 4 cfg.pre cfg.N
-      .ok ((if cfg.pre then preCreateEvents (d.applyAll e0) else []) ++
-           [Ev.creat .settingsTmp true, .write .settingsTmp bytes, .sync .settingsTmp,
-            .rename .settingsTmp .settings], cfg.pre)
-  match sres with
-  | .error e => (e0, .error e)
+  match settingsGate cfg d0 with
+  | .error e => ([], .error e)
   | .ok (e1, preCreated) =>
-    let d1 := d.applyAll (e0 ++ e1)
+    let d1 := d0.applyAll e1
     match logical H cfg.kind d1 with
-    | .error e => (e0 ++ e1, .error e)
+    | .error e => (e1, .error e)
     | .ok acc =>
       let next := acc.highest + 1
       let tseg := segOf cfg.N next
@@ -388,12 +389,19 @@ def openScript (H : Bytes → Bytes) (cfg : Config) (d : Disk) (locked : Bool) :
       let m : Mem := { cfg := cfg, idx := acc.idx, next := next, active := none,
                        preCreated := preCreated }
       let d2 := d1.applyAll e2
-      let (e3, m') := if acc.replayed > 0 then checkpointScript .afterReplay m d2 else ([], m)
-      let d3 := d2.applyAll e3
-      let scan := scanCanonical H cfg.verify m'.idx d3
+      let ck := if acc.replayed > 0 then checkpointScript .afterReplay m d2 else ([], m)
+      let d3 := d2.applyAll ck.1
+      let scan := scanCanonical H cfg.verify ck.2.idx d3
       if cfg.scan ∧ cfg.failOnIntegrity ∧ (scan.missing ≠ [] ∨ scan.corrupted ≠ []) then
-        (e0 ++ e1 ++ e2 ++ e3, .error (.integrity scan.missing.length scan.corrupted.length))
-      else (e0 ++ e1 ++ e2 ++ e3, .ok (m', scan))
+        (e1 ++ e2 ++ ck.1, .error (.integrity scan.missing.length scan.corrupted.length))
+      else (e1 ++ e2 ++ ck.1, .ok (ck.2, scan))
+
+/-- `Cas::open`. `locked` = another live handle holds the flock. -/
+def openScript (H : Bytes → Bytes) (cfg : Config) (d : Disk) (locked : Bool) :
+    List Ev × Except OpenErr (Mem × ScanOut) :=
+  if locked then (openPre d, .error .alreadyOpened) else
+  let b := openBody H cfg (d.applyAll (openPre d ++ [Ev.flock]))
+  (openPre d ++ [Ev.flock] ++ b.1, b.2)
 
 /-- `OrphanStats::delete_orphans` (sequential: no pending intents): events and the
     `RecoveryResult` counters (deleted, skipped, staging files removed). -/
